@@ -47,6 +47,7 @@ type Program struct {
 	NFuncs    int // circl functions with bodies
 	sentinels map[*ssa.Global]bool
 	dep       *depEngine
+	mod       *modEngine
 }
 
 func loadProgram(repo string, cfg Config) (*Program, error) {
